@@ -388,6 +388,11 @@ def eval_stream_case(flex, workdir, case):
     for si, (rn, (rrc, revs, rerr)) in enumerate(zip(allruns, runs)):
         sources = [w for sess in rn['sessions'] for w in sess]
         mevs = parse_events(chunks[si].encode(), bol_obs) if si < len(chunks) else []
+        # a fatal error ends the process: nothing after it (later sessions included) can be observed
+        for fi, e in enumerate(mevs):
+            if e[0] == 'F':
+                mevs = mevs[:fi + 1]
+                break
         fatal_expected = any(e[0] == 'F' for e in mevs)
         ok = (revs == mevs) or (fatal_expected and revs[:len(mevs)] == mevs)
         # after a fatal error the real scanner exits without the final R 0
